@@ -5,7 +5,7 @@ C09 — the data row key: `EncryptPayload` = obtain the intermediate key, then `
 `drkPart` allocates is closed when it returns. `decryptRow` allocates nothing.
 -/
 set_option linter.unusedVariables false
-namespace AsherahVerif.Env
+namespace AsherahVerif.Env.Res
 
 /-- the part of `EncryptPayload` that runs once the intermediate key `ik` is at hand: generate the
 data row key, encrypt payload and key, close the data row key. -/
@@ -97,4 +97,4 @@ theorem decryptRow_no_secret (ik : Nat) (dk : DrrKey) (data : Ct) (w : World) :
     unfold decryptRow newBuf wipeBuf
     pres_auto_deep [hw, ha]
   exact this w rfl
-end AsherahVerif.Env
+end AsherahVerif.Env.Res
